@@ -228,7 +228,7 @@ def scenario(case, files):
     r = Run()
     from ncclient.manager import Manager
     dh = p.device_handler()
-    if path in ('close', 'close_twice', 'race_reply', 'race_read', 'race_submit', 'peer_drop', 'close_in_callback', 'slow_listener'):
+    if path in ('close', 'close_twice', 'race_reply', 'race_read', 'race_submit', 'peer_drop', 'close_in_callback', 'slow_listener', 'peer_drop_slow_errback'):
         r.s, r.peer, err = opn(rpc='hold')
         assert err is None, err
         r.s._plog_add('HelloOk')
@@ -240,6 +240,16 @@ def scenario(case, files):
                     if 'rpc-reply' in root[0]: sess.close()
                 def errback(self, ex): pass
             r.s.add_listener(Closer())
+        if path == 'peer_drop_slow_errback':
+            # the peer drops the connection; three application listeners are slow in errback; the application closes
+            # while the error is still being delivered: nothing may still be running once close() has returned
+            from ncclient.transport.session import SessionListener
+            sess = r.s
+            class SlowErr(SessionListener):
+                def callback(self, root, raw): pass
+                def errback(self, ex):
+                    time.sleep(case.get('sleep', 0.4)); sess.probe.calls.append(('slow-errback-end', p.now()))
+            for _ in range(3): r.s.add_listener(SlowErr())
         if path == 'slow_listener':
             # an application listener that is slow on the first message: close() is called while the worker is busy in it
             from ncclient.transport.session import SessionListener
@@ -285,6 +295,10 @@ def scenario(case, files):
             r.s.join_pause = 0.03                 # the submitter gets time between the end of the worker and the end of close()
             th = threading.Thread(target=spam); th.start(); time.sleep(0.02)
             r.s.close(); r.t_ret = p.now(); stop.set(); th.join()
+        elif path == 'peer_drop_slow_errback':
+            r.peer._close_own()
+            time.sleep(0.2)
+            r.s.close(); r.t_ret = p.now()
         elif path == 'peer_drop':
             r.peer._close_own()
             r.s.join(BOUND)                       # the worker sees EOF, broadcasts, closes the session itself
@@ -307,6 +321,8 @@ def scenario(case, files):
         r.s._plog_add('HelloOk')
         submit(r, npend)
         m = Manager(r.s, dh, timeout=case.get('rpc_timeout', 0.5))
+        if case.get('async_mode'):
+            m.async_mode = True                          # close_session must release the session in asynchronous mode too
         if case.get('stream'):
             r.peer.start_stream(); time.sleep(0.1)       # the peer keeps sending while the session is being closed
         try:
@@ -571,6 +587,7 @@ def gen_cases(kind, rng, thorough):
         cs.append(dict(transport=kind, path='race_read', pending=n))
     cs.append(dict(transport=kind, path='close_twice', pending=1))
     cs.append(dict(transport=kind, path='slow_listener', pending=2, sleep=1.4))
+    cs.append(dict(transport=kind, path='peer_drop_slow_errback', pending=1, sleep=0.4))
     cs.append(dict(transport=kind, path='race_submit', pending=1))
     for n in (1, 2):
         cs.append(dict(transport=kind, path='close_in_callback', pending=n))
@@ -579,6 +596,9 @@ def gen_cases(kind, rng, thorough):
             for n in ((0, 2) if not thorough else (0, 1, 3)):
                 cs.append(dict(transport=kind, path=path, close_rpc=cr, pending=n, rpc_timeout=0.3))
     cs.append(dict(transport=kind, path='with_exc', close_rpc='ok_close', pending=0, rpc_timeout=0.3, body_exc='transport'))
+    for cr in ('silent', 'ok_open', 'ok_close'):
+        cs.append(dict(transport=kind, path='close_session', close_rpc=cr, pending=1, rpc_timeout=0.3, async_mode=True))
+    cs.append(dict(transport=kind, path='with_ok', close_rpc='silent', pending=0, rpc_timeout=0.3, async_mode=True))
     cs.append(dict(transport=kind, path='close_session', close_rpc='ok_open', pending=0, rpc_timeout=1.0, stream=True))
     for h in ('silent', 'garbage_eof', 'eof'):
         cs.append(dict(transport=kind, path='failed_hello', hello=h))
